@@ -106,6 +106,78 @@ func ruleF9(p *Prog) *RuleResult {
 				why = fmt.Sprintf("the len(list)==1 branch returns %s, whose result is not a fresh bitmap", fname(callee))
 			}
 		}
+		// the guard may live in a helper shared by the siblings: answer, done := few(list); if done { return answer }
+		if !guard {
+			for _, b := range f.Blocks {
+				ifi, ok := b.Instrs[len(b.Instrs)-1].(*ssa.If)
+				if !ok {
+					continue
+				}
+				ex, ok := ifi.Cond.(*ssa.Extract)
+				if !ok {
+					continue
+				}
+				call, ok := ex.Tuple.(*ssa.Call)
+				if !ok {
+					continue
+				}
+				h := call.Call.StaticCallee()
+				if h == nil || h.Blocks == nil || h.Signature.Results().Len() != 2 {
+					continue
+				}
+				passesList := false
+				for _, a := range call.Call.Args {
+					if isBitmapPtrSliceParam(a.Type()) {
+						passesList = true
+					}
+				}
+				tb := b.Succs[0]
+				ret, ok := tb.Instrs[len(tb.Instrs)-1].(*ssa.Return)
+				if !passesList || !ok || len(ret.Results) != 1 {
+					continue
+				}
+				if ex0, ok := ret.Results[0].(*ssa.Extract); !ok || ex0.Tuple != ex.Tuple || ex0.Index != 0 {
+					continue
+				}
+				hs := own.Sum(h)
+				if hs == nil || len(hs.ret) == 0 || !hs.ret[0].fresh || len(hs.ret[0].is) != 0 || len(hs.ret[0].isDeep) != 0 {
+					why = fmt.Sprintf("the shared guard %s may hand back one of the inputs", fname(h))
+					continue
+				}
+				// the helper answers done=true for a single input
+				single := false
+				for _, hb := range h.Blocks {
+					hi, ok := hb.Instrs[len(hb.Instrs)-1].(*ssa.If)
+					if !ok {
+						continue
+					}
+					bo, ok := hi.Cond.(*ssa.BinOp)
+					if !ok || bo.Op != token.EQL {
+						continue
+					}
+					var lenCall ssa.Value
+					if isConstInt(bo.Y, 1) {
+						lenCall = bo.X
+					} else if isConstInt(bo.X, 1) {
+						lenCall = bo.Y
+					}
+					if !isLenOfBitmapList(lenCall) {
+						continue
+					}
+					t := hb.Succs[0]
+					if r, ok := t.Instrs[len(t.Instrs)-1].(*ssa.Return); ok && len(r.Results) == 2 {
+						if cb, ok := constBool(r.Results[1]); ok && cb {
+							single = true
+						}
+					}
+				}
+				if single {
+					guard = true
+				} else {
+					why = fmt.Sprintf("the shared guard %s does not answer for a single input", fname(h))
+				}
+			}
+		}
 		if guard {
 			res.ok(c, pos, "len(list)==1 guard returns a fresh copy")
 		} else {
